@@ -51,6 +51,7 @@ def make_world(g, tag):
     kind = r.choice(['json', 'json', 'yaml', 'sajson'])
     leaves, base = (YLEAVES, YBASE) if kind == 'yaml' else (LEAVES, BASE)
     masked = r.sample(leaves, r.randint(1, 3))
+    hash_path = kind != 'yaml' and 'l.0.k' in masked and r.random() < 0.6       # the same leaf addressed as `l.#.k`
     changed = r.sample(leaves, r.randint(1, 2)) if r.random() < 0.8 else []
     if r.random() < 0.35:
         # the interesting half of the property: the variants differ at masked paths only
@@ -79,8 +80,14 @@ def make_world(g, tag):
         if r.random() < 0.4:
             # a second document of the stream; a difference there is never masked
             other = r.choice(['same', 'same', 'changed'])
-            ta += '---\nsecond: same\n'
-            tb += '---\nsecond: %s\n' % other
+            # the later document may hold the masked members too: a path is masked wherever it occurs
+            extra_a = extra_b = ''
+            if r.random() < 0.5:
+                keys2 = [p for p in masked if '.' not in p]
+                extra_a = ''.join('%s: %s\n' % (k2, yq('doc2 %s' % k2)) for k2 in keys2)
+                extra_b = ''.join('%s: %s\n' % (k2, yq('doc2 %s other' % k2 if r.random() < 0.7 else 'doc2 %s' % k2)) for k2 in keys2)
+            ta += '---\nsecond: same\n' + extra_a
+            tb += '---\nsecond: %s\n' % other + extra_b
             if other == 'changed':
                 only_masked = False
         ylenient = r.random() < 0.4
@@ -103,6 +110,10 @@ def make_world(g, tag):
         for p in masked_iter:
             k = r.random()
             va, vb = getp(a, p), getp(b, p)
+            if hash_path and p == 'l.0.k':
+                # one path masking a member of EVERY element of the array (gjson multi-match syntax)
+                mts.append(docs.any_matcher(['l.#.k'], r.choice([None, '"MASK"']), r.random() < 0.5))
+                continue
             if k < 0.3 and type(va) == type(vb) and docs.go_type(va) in ('string', 'bool', 'float64'):
                 # Type is satisfied by both variants (the value kept its type)
                 mts.append(docs.type_matcher([p], docs.go_type(va)))
